@@ -69,9 +69,11 @@ type Beacon struct {
 	now atomic.Int64 // unix seconds
 }
 
-func (b *Beacon) SetNow(t time.Time)             { b.now.Store(t.Unix()) }
-func (b *Beacon) Now() time.Time                  { return time.Unix(b.now.Load(), 0) }
-func (b *Beacon) EstimatedCurrentSlot() phase0.Slot { return b.Network.EstimatedSlotAtTime(b.now.Load()) }
+func (b *Beacon) SetNow(t time.Time) { b.now.Store(t.Unix()) }
+func (b *Beacon) Now() time.Time     { return time.Unix(b.now.Load(), 0) }
+func (b *Beacon) EstimatedCurrentSlot() phase0.Slot {
+	return b.Network.EstimatedSlotAtTime(b.now.Load())
+}
 func (b *Beacon) EstimatedCurrentEpoch() phase0.Epoch {
 	return b.Network.EstimatedEpochAtSlot(b.EstimatedCurrentSlot())
 }
@@ -134,7 +136,8 @@ type World struct {
 	QEnv    *qsim.Env                   // qsim executions share the one badger instance
 
 	streams map[string][]*Msg
-	raw7    *Val
+	native  int
+	raw     map[int]*Val
 }
 
 func mustNil(err error) {
@@ -168,15 +171,21 @@ func blsPK(seed byte) []byte {
 	return sk.GetPublicKey().Serialize()
 }
 
-// NewWorld builds the world: one in-memory badger, NumOperators+1 RSA keys, six validators.
-func NewWorld() *World {
+// NewWorld builds the world: one in-memory badger, NumOperators+1 RSA keys, six validators. The validator key of the
+// ssv-spec key sets (the SAME key in every set) is registered with the 4-operator committee (Known4); Known7 has a key
+// of its own and its qsim streams are re-addressed (Retarget).
+func NewWorld() *World { return NewWorldNative(4) }
+
+// NewWorldNative(7) registers the key sets' validator key with the 7-operator committee instead (Known7 native, Known4
+// re-addressed): for simulators whose real runners / controllers address that key with Testing7SharesSet (C10).
+func NewWorldNative(native int) *World {
 	lg := zap.NewNop()
 	db, err := kv.NewInMemory(lg, basedb.Options{Ctx: context.Background()})
 	mustNil(err)
 	ns, err := operatorstorage.NewNodeStorage(lg, db)
 	mustNil(err)
 	w := &World{Logger: lg, DB: db, NS: ns, Ops: map[spectypes.OperatorID]*Operator{}, Vals: map[ValKind]*Val{},
-		Duties: dutystore.New(), QEnv: &qsim.Env{DB: db, Logger: lg}, streams: map[string][]*Msg{}}
+		Duties: dutystore.New(), QEnv: &qsim.Env{DB: db, Logger: lg}, streams: map[string][]*Msg{}, native: native, raw: map[int]*Val{}}
 
 	for id := spectypes.OperatorID(1); id <= NumOperators; id++ {
 		op := newOperator(id)
@@ -222,8 +231,12 @@ func NewWorld() *World {
 		}
 		w.Vals[kind] = v
 	}
-	mk(Known4, 4, qsim.KeySet(4).ValidatorPK.Serialize(), 1004, active(1004), false, true)
-	mk(Known7, 7, blsPK(77), 1007, active(1007), false, true)
+	pk4, pk7 := qsim.KeySet(4).ValidatorPK.Serialize(), blsPK(77)
+	if native == 7 {
+		pk4, pk7 = blsPK(74), qsim.KeySet(7).ValidatorPK.Serialize()
+	}
+	mk(Known4, 4, pk4, 1004, active(1004), false, true)
+	mk(Known7, 7, pk7, 1007, active(1007), false, true)
 	mk(Unknown, 4, blsPK(11), 2001, active(2001), false, false)
 	mk(Liquidated, 4, blsPK(22), 2002, active(2002), true, true)
 	mk(NoMetadata, 4, blsPK(33), 2003, nil, false, true)
